@@ -53,6 +53,8 @@ func main() {
 			for i := 0; i < 5; i++ {
 				runPlanCase(rep, c)
 			}
+		case "famrace":
+			runFamRace(f, rep)
 		default:
 			vevid.Fatal("replay: unknown part %q", head.Part)
 		}
@@ -67,6 +69,8 @@ func main() {
 		runEngine(f, rep)
 	case "planner":
 		runPlanner(f, rep)
+	case "famrace":
+		runFamRace(f, rep)
 	default:
 		vevid.Fatal("unknown part %q", f.Part)
 	}
